@@ -22,6 +22,8 @@ INF = float('inf')
 
 def ival(v):
     """Canonical rendering of an amount / value (integer expected)."""
+    if isinstance(v, tuple) and len(v) == 1:
+        v = v[0]          # work-order tags are 1-tuples (see do_op 'wo')
     if v is None:
         return '-'
     if v == INF:
@@ -114,13 +116,14 @@ class TargetMixin:
     _vtgt = None
 
     def _params(self, tag):
+        tag = tag[0] if isinstance(tag, tuple) else tag
         r = self._vrunner
         if r is None or self._vtgt is None:
             return (0, 0, 0)
         return r.targets[self._vtgt]['params'].get(tag, (0, 0, 0))
 
     def get_work_order_duration(self, tag):
-        return self._params(tag)[0] / TICK
+        return self._params(tag)[0] / (self._vrunner.tick if self._vrunner is not None else TICK)
 
     def get_work_order_capacity(self, tag):
         return self._params(tag)[1]
@@ -132,12 +135,12 @@ class TargetMixin:
 class ProcX(TargetMixin, PartProcessor):
     def start_work(self, tag):
         if self._vtgt is not None:
-            self._vrunner.results.append(f'hook start {self._vtgt} {tag}')
+            self._vrunner.results.append(f'hook start {self._vtgt} {ival(tag)}')
         PartProcessor.start_work(self, tag)
 
     def end_work(self, tag):
         if self._vtgt is not None:
-            self._vrunner.results.append(f'hook end {self._vtgt} {tag}')
+            self._vrunner.results.append(f'hook end {self._vtgt} {ival(tag)}')
         PartProcessor.end_work(self, tag)
 
 
@@ -150,13 +153,13 @@ class FakeTarget(TargetMixin, Maintainable):
 
     def start_work(self, tag):
         r = self._vrunner
-        r.results.append(f'hook start {self._vtgt} {tag}')
+        r.results.append(f'hook start {self._vtgt} {ival(tag)}')
         if self._start is not None:
             ScriptAction(r, self._start)()
 
     def end_work(self, tag):
         r = self._vrunner
-        r.results.append(f'hook end {self._vtgt} {tag}')
+        r.results.append(f'hook end {self._vtgt} {ival(tag)}')
         if self._end is not None:
             ScriptAction(r, self._end)()
 
@@ -345,8 +348,8 @@ class FullRunner(Runner):
 
         def cb(dev, part):
             if set_cycle is not None:
-                dev.cycle_time = set_cycle / TICK
-            dev.offset_next_cycle_time(off / TICK)
+                dev.cycle_time = set_cycle / self.tick
+            dev.offset_next_cycle_time(off / self.tick)
             if not isinstance(part, Batch):
                 if addv != 0:
                     part.add_value('cb', addv)
@@ -379,7 +382,7 @@ class FullRunner(Runner):
         elif t == 'sched':
             kv = kvs(toks[1:])
             i = len(self.scheds)
-            tt = [(int(a) / TICK, int(b)) for a, b in (e.split(':') for e in plist(kv.get('tt', '-')))]
+            tt = [(int(a) / self.tick, int(b)) for a, b in (e.split(':') for e in plist(kv.get('tt', '-')))]
             args = {}
             if kv.get('cyc', 'def') != 'def':
                 args['is_cyclical'] = kv['cyc'] == '1'
@@ -399,7 +402,7 @@ class FullRunner(Runner):
                 for v in plist(kv.get('vars', '-')):
                     self.set_var(int(v), self.svars[int(v)].x[0] if int(v) < len(self.svars) else 0)
                     probes.append(Probe(lambda tgt: tgt.x, self.svars[int(v)]))
-                s = PeriodicSensor(int(kv.get('interval', '16')) / TICK, probes, f'N{i}', **args)
+                s = PeriodicSensor(int(kv.get('interval', '16')) / self.tick, probes, f'N{i}', **args)
             else:
                 probes = [Probe((lambda tgt: tgt.quality) if a == '0' else (lambda tgt: tgt.value), None)
                           for a in plist(kv.get('attrs', '-'))]
@@ -435,7 +438,7 @@ class FullRunner(Runner):
         i = len(self.devs)
         name = f'D{i}'
         ups = [self.devs[int(u)] for u in plist(kv.get('up', '-'))]
-        cyc = int(kv.get('cyc', '0')) / TICK
+        cyc = int(kv.get('cyc', '0')) / self.tick
         value = int(kv.get('value', '0'))
         if kind == 'source':
             args = {}
@@ -464,7 +467,7 @@ class FullRunner(Runner):
             args = {}
             if kv.get('cap', 'def') != 'def':
                 args['capacity'] = None if kv['cap'] == 'inf' else int(kv['cap'])
-            d = Buffer(name, ups, int(kv.get('delay', '0')) / TICK, value=value, **args)
+            d = Buffer(name, ups, int(kv.get('delay', '0')) / self.tick, value=value, **args)
         elif kind == 'gate':
             pred = kv.get('pred', 'always').split(':')
 
@@ -563,7 +566,8 @@ class FullRunner(Runner):
             return 'ok'
         if op == 'wo':
             m = self.maints[int(toks[1])]
-            r = m.create_work_order(self.targets[int(toks[2])]['obj'], int(toks[3]), int(toks[4]))
+            # the tag is a freshly built tuple: equal to, but never the same object as, earlier tags
+            r = m.create_work_order(self.targets[int(toks[2])]['obj'], tuple([int(toks[3])]), int(toks[4]))
             return 'ret 1' if r else 'ret 0'
         if op == 'setparams':
             self.targets[int(toks[1])]['params'][int(toks[2])] = (int(toks[3]), int(toks[4]), int(toks[5]))
